@@ -38,7 +38,7 @@ CLAIMS = {
              "gzip/deflate/zstd, trailers emission through EncodeBody (thorough-tier attempt).",
         ref="§4 C03, §10.6"),
     "C04": dict(
-        text="Solver-decided kernels of the status <-> header encoding: grpc-status text <-> Code for all byte strings <= 3 bytes and all 17 "
+        text="Solver-decided kernels of the status <-> header encoding: grpc-status text <-> Code for all byte strings <= 16 bytes and all 17 "
              "codes, Code::from_i32 total over i32, the HTTP-status mapping for all 100..=599, the HTTP/2 error-code mapping for every u32 "
              "reason, to_h2_error; reading a grpc-status header through a real 1-entry HeaderMap.",
         note="Outside: grpc-message percent-coding and details base64 through Status::from_header_map/add_header on maps with more than one "
